@@ -42,22 +42,32 @@ static void run_one(int mode, long long nkeys, const std::vector<Op> &h, bool la
 			else if(o.name == "index_set") { (*m)[o.k] = V(o.k + 100); res = o.k + 100; }
 			else if(o.name == "remove") { auto r = m->remove(o.k); res = r ? value_of(*r) : -1; }
 			else if(o.name == "get") { V *p = m->get(o.k); res = p ? value_of(*p) : -1; }
+			else if(o.name == "init_list") {
+				// construct anew from an initializer list with the keys 0..k-1 (k <= 3)
+				using E = frg::tuple<const long long, V>;
+				m->~Map();
+				if(o.k == 1) m = new (store) Map(Hasher{mode}, {E{0ll, V(100)}});
+				else if(o.k == 2) m = new (store) Map(Hasher{mode}, {E{0ll, V(100)}, E{1ll, V(101)}});
+				else m = new (store) Map(Hasher{mode}, {E{0ll, V(100)}, E{1ll, V(101)}, E{2ll, V(102)}});
+			}
 			Ev ev("Op");
 			ev.str("name", o.name).i("k", o.k).i("res", res);
 			bool chk = !lastonly || i + 1 == h.size();
 			ev.i("chk", chk ? 1 : 0);
 			if(chk) {
 				bool lo = ledger_on(); ledger_on() = false;
-				std::vector<long long> get, find;
+				std::vector<long long> get, find, cfind;
+				const Map &cm = *m;
 				for(long long k = 0; k < nkeys; k++) {
 					V *p = m->get(k); get.push_back(p ? value_of(*p) : -1);
 					auto it = m->find(k); find.push_back(it ? ((*it).template get<0>() == k ? value_of((*it).template get<1>()) : -2) : -1);
+					auto ct = cm.find(k); cfind.push_back(ct != cm.end() ? ((*ct).template get<0>() == k ? value_of((*ct).template get<1>()) : -2) : -1);
 				}
 				std::vector<std::vector<long long>> iter;
 				int guard = 0;
 				for(auto it = m->begin(); it != m->end(); ++it) { iter.push_back({(*it).template get<0>(), value_of((*it).template get<1>())}); if(++guard > 100000) break; }
 				std::sort(iter.begin(), iter.end());
-				ev.raw("get", jarr(get)).raw("find", jarr(find)).raw("iter", jarr2(iter)).i("size", (long long)m->size()).i("empty", m->empty() ? 1 : 0);
+				ev.raw("get", jarr(get)).raw("find", jarr(find)).raw("cfind", jarr(cfind)).raw("iter", jarr2(iter)).i("size", (long long)m->size()).i("empty", m->empty() ? 1 : 0);
 				ledger_on() = lo;
 			}
 			ev.emit();
